@@ -10,6 +10,7 @@ for g in gen/gen_*.py; do
     gen/gen_key_layout.py) python3 "$g" /repo coq/KeyLayout.v ;;
     gen/gen_asm_params.py) python3 "$g" /repo coq/AsmParams.v ;;
     gen/gen_doc_limits.py) python3 "$g" /repo coq/DocLimits.v ;;
+    gen/gen_routing_sites.py) python3 "$g" /repo coq/RoutingSites.v ;;
   esac
 done
 ./lib/mkcoqproject.sh
